@@ -606,12 +606,24 @@ func nearPairs(n *Node, r *rand.Rand, types map[string]string, hosts []*Host, en
 				return
 			}
 			v := p[k]
+			// the 64-bit kinds of Go are int64 / uint64 and, on this platform, int / uint; each side draws its own
+			platform := r.Intn(2) == 0
 			if v.C == "uint" {
-				hosts[i].U64 = v.U
-				text[sl.N] = hp(i) + ".U64"
+				if platform {
+					hosts[i].U = uint(v.U)
+					text[sl.N] = hp(i) + ".U"
+				} else {
+					hosts[i].U64 = v.U
+					text[sl.N] = hp(i) + ".U64"
+				}
 			} else {
-				hosts[i].I64 = v.I
-				text[sl.N] = hp(i) + ".I64"
+				if platform {
+					hosts[i].I = int(v.I)
+					text[sl.N] = hp(i) + ".I"
+				} else {
+					hosts[i].I64 = v.I
+					text[sl.N] = hp(i) + ".I64"
+				}
 			}
 			env[sl.N] = v
 		}
